@@ -144,20 +144,44 @@ class Fuzz:
             self.muts[k] = c03fuzz.Mutator(self.seeds[k][2], self.ctx.rng)
         return self.muts[k]
 
+    def interaction_round(self, per_seed):
+        """deterministic cross-chunk interaction files (pairs/triples of stateful foreign chunks) for one AIFF, one AIFC and two WAV seeds"""
+        picks, seen = [], set()
+        for k, sd in enumerate(self.seeds):
+            key = (sd[2][:4], sd[2][8:12], (sd[0] & 0xFFFF) in (6, 7))
+            if sd[2][:4] in (b"RIFF", b"FORM", b"RIFX") and key not in seen and len(sd[2]) < 4000:
+                seen.add(key)
+                picks.append(k)
+        files = []
+        for k in picks[:6]:
+            for (label, data) in c03fuzz.interaction_files(self.seeds[k][2], per_seed):
+                files.append((k, "interact", data, label))
+        self._run_files(files, "ia")
+
     def one_round(self, count, tag):
         rng = self.ctx.rng
-        jobs = []
+        files = []
         for i in range(count):
             k = rng.randrange(len(self.seeds))
             if rng.random() < 0.04:
                 kind, data = "seed", self.seeds[k][2]
             else:
                 kind, data = self.mutator(k).mutate()
+            files.append((k, kind, data, None))
+        self._run_files(files, tag)
+
+    def _run_files(self, files, tag):
+        rng = self.ctx.rng
+        jobs = []
+        for i, (k, kind, data, _label) in enumerate(files):
             x = rng.random()
             route = "vio" if x < 0.86 else ("fd" if x < 0.93 else "pipe")
             ops = c03fuzz.api_script(rng, route)
             name = "%s-%d" % (tag, i)
             jobs.append((name, k, kind, route, data, ["store s0 " + data.hex()] + ops))
+        self._judge_jobs(jobs)
+
+    def _judge_jobs(self, jobs):
         out = self.ctx.batch([(j[0], "\n".join(j[5]) + "\n") for j in jobs], op_timeout=OP_TIMEOUT, workers=WORKERS)
         if jobs and not getattr(self, "example", None):
             j = next((x for x in jobs if x[2] != "seed" and len(x[4]) <= 1200), jobs[0])
@@ -422,6 +446,8 @@ def run(ctx):
     budget = 150 if ctx.tier == "quick" else 3300
     chunk = 2500 if ctx.tier == "quick" else 20000
     rnd = 0
+    fz.interaction_round(500 if ctx.tier == "quick" else 4000)
+    ctx.notes["interaction_files"] = fz.stats["by_kind"].get("interact", 0)
     while fz.stats["files"] < total and ctx.budget_left(budget) > 0 and len(fz.failures) < 6:
         fz.one_round(min(chunk, total - fz.stats["files"]), "r%d" % rnd)
         rnd += 1
